@@ -809,6 +809,76 @@ func buildPDF(c *fw.Ctx, dir string, i int, base *pagegen.Page) pdfCase {
 	return pdfCase{path: path, pages: dev}
 }
 
+// runDamagedPage: the page followed by a page whose content stream cannot be decoded
+// (it claims /FlateDecode and holds no zlib data). Whether the document is refused or the
+// damaged page is left out is the library's choice; what is asserted is that an output
+// that is returned shows no token more often than it was written — the healthy page's
+// text is not shown a second time in the place of the damaged one.
+func runDamagedPage(c *fw.Ctx, id, dir string, i int, base *pagegen.Page) {
+	r := c.Rand("page", i, "damaged")
+	mode := pagegen.PDFMode{TopDown: base.Spec.InvertedY}
+	good := base.SimplePage(base.Spec.Scale, mode)
+	bad := good
+	bad.Unreadable = true
+	sps := []pdfw.SimplePage{good, bad}
+	if r.Intn(3) == 0 {
+		sps = append(sps, good) // healthy, damaged, healthy again (the same text twice is then written twice)
+	}
+	written := map[string]int{}
+	for k, sp := range sps {
+		if k == 1 {
+			continue
+		}
+		for _, it := range sp.Items {
+			for _, t := range fw.FindTokens(it.Text) {
+				written[t]++
+			}
+		}
+	}
+	path := filepath.Join(dir, fmt.Sprintf("p%d-damaged.pdf", i))
+	os.WriteFile(path, pdfw.SimplePDF(sps), 0o644)
+	defer os.Remove(path)
+	det := specDetail(base)
+	det["pdf_pages"] = len(sps)
+	det["damaged_page"] = 2
+	c.Guard("b-damaged", id, det, func() {
+		for _, v := range []struct {
+			name string
+			f    func(e *tabula.Extractor) (string, []tabula.Warning, error)
+		}{
+			{"Text", func(e *tabula.Extractor) (string, []tabula.Warning, error) { return e.Text() }},
+			{"ByColumn.Text", func(e *tabula.Extractor) (string, []tabula.Warning, error) { return e.ByColumn().Text() }},
+			{"JoinParagraphs.Text", func(e *tabula.Extractor) (string, []tabula.Warning, error) { return e.JoinParagraphs().Text() }},
+			{"PreserveLayout.Text", func(e *tabula.Extractor) (string, []tabula.Warning, error) { return e.PreserveLayout().Text() }},
+		} {
+			out, _, err := v.f(tabula.Open(path))
+			if err != nil {
+				c.Count("damaged_page_documents_refused", 1)
+				continue
+			}
+			c.Count("damaged_page_outputs_compared", 1)
+			got := map[string]int{}
+			for _, t := range fw.FindTokens(out) {
+				got[t]++
+			}
+			var dup []string
+			for t, n := range got {
+				if n > written[t] {
+					dup = append(dup, fmt.Sprintf("%q shown %d times, written %d times", t, n, written[t]))
+				}
+			}
+			if len(dup) > 0 {
+				sort.Strings(dup)
+				if len(dup) > 6 {
+					dup = dup[:6]
+				}
+				c.Fail("", "b/damaged-page/duplicated", id, fmt.Sprintf("b: %s of a document whose page 2 cannot be decoded shows text more often than it was written: %v", v.name, dup), det)
+				return
+			}
+		}
+	})
+}
+
 var tokenRe = regexp.MustCompile(`q[0-9a-z]{3}z[0-9a-z]{4}`)
 
 // ---------------------------------------------------------- fixed witnesses
@@ -924,6 +994,9 @@ func Run(c *fw.Ctx) {
 			pc := buildPDF(c, dir, i, base)
 			runPDF(c, id, pc, nil)
 			os.Remove(pc.path)
+			if i%4 == 0 && base.Spec.Frag != "char" { // whole tokens per show operation, so that "written" can be counted per item
+				runDamagedPage(c, id, dir, i, base)
+			}
 		}
 	})
 	c.Exhaustive(false)
